@@ -314,7 +314,9 @@ func TestVerif_C17_Post(t *testing.T) {
 		for i := 0; i < c.N; i++ {
 			before := len(ch)
 			done := make(chan error, 1)
-			go func() { done <- common.PostObservationRequest(ch, &gossipv1.ObservationRequest{ChainId: 2, TxHash: []byte{byte(i)}}) }()
+			go func() {
+				done <- common.PostObservationRequest(ch, &gossipv1.ObservationRequest{ChainId: 2, TxHash: []byte{byte(i)}})
+			}()
 			select {
 			case err := <-done:
 				if before == c.Cap {
